@@ -65,11 +65,35 @@ def check(ctx):
     okd = isinstance(dv, ast.Constant) and dv.value is True
     ctx.ob("load_tree.validate-default", lt, "validate: bool = True", okd,
            "validation is on by default" if okd else "load_tree no longer validates by default")
+    # other tree loaders of Config that end in validation the way load_tree does (a new `merge_tree(tree, validate=True)`):
+    # a document load may go through any of them
+    def validating_loader(fn2):
+        if fn2 is lt:
+            return True
+        if fn2.cls is None or not fn2.cls.is_subclass_of(Config) or "validate" not in [a.arg for a in fn2.params] or fn2.name.startswith("__"):
+            return False
+        dd = dict(zip([a.arg for a in fn2.node.args.args][-len(fn2.node.args.defaults):], fn2.node.args.defaults)) if fn2.node.args.defaults else {}
+        if not (isinstance(dd.get("validate"), ast.Constant) and dd["validate"].value is True):
+            return False
+        g2 = an.cfg(fn2)
+        v2 = {n for n in g2.nodes if n.kind == "call" and any(c.name == "validate" and c.cls is not None and c.cls.is_subclass_of(Config)
+                                                              for c in an.callees(fn2, n))
+              and isinstance(n.ast.func, ast.Attribute) and isinstance(n.ast.func.value, ast.Name) and n.ast.func.value.id == fn2.self_name}
+
+        def cut2(a, b, lbl):
+            if a.kind == "test" and isinstance(a.ast, ast.Name) and lbl is False:
+                srcs = value_sources(fn2, a.ast, a)
+                if a.ast.id == "validate" or (srcs and all(k == "param" and p_ == "validate" for k, p_ in srcs)):
+                    return False
+            return True
+        return bool(v2) and path_avoiding(an, fn2, g2.entry, lambda n: n is g2.exit, lambda n: n in v2, edge_filter=cut2) is None
+    loaders = {m for m in Config.methods.values() if validating_loader(m)}
     for name, callee_name in (("loads", "load_tree"), ("load", "loads")):
         f = model.method("Config", name)
         gf = an.cfg(f)
-        cs = {n for n in gf.nodes if n.kind == "call" and any(c.name == callee_name and c.cls is not None and c.cls.is_subclass_of(Config)
-                                                               for c in an.callees(f, n))}
+        cs = {n for n in gf.nodes if n.kind == "call" and any(
+            ((c in loaders) if callee_name == "load_tree" else (c.name == callee_name and c.cls is not None and c.cls.is_subclass_of(Config)))
+            for c in an.callees(f, n))}
         ctx.need(bool(cs), "Config.%s no longer calls %s: vanished anchor" % (name, callee_name))
         p = path_avoiding(an, f, gf.entry, lambda n: n is gf.exit, lambda n: n in cs)
         ctx.ob("%s.reaches-%s" % (name, callee_name), f, "Config.%s -> %s" % (name, callee_name), p is None,
